@@ -1104,13 +1104,12 @@ class Compiler:
   def e_BoolOp(self, e):
     is_and = isinstance(e.op, ast.And)
     # short circuit: later operands may contain shared operations
-    res = None
     vals = []
     for i, sub in enumerate(e.values):
-      n0 = len(self.prog.nodes)
+      snap = self.snapshot_state()
       v = self.expr(sub)
       t = self.truthy(v)
-      emitted = len(self.prog.nodes) > n0
+      emitted = len(self.prog.nodes) > snap[0]
       if isinstance(t, BK):
         if t.v != is_and:          # decides the result
           if not vals:
@@ -1119,8 +1118,9 @@ class Compiler:
           break
         continue
       if emitted and vals:
-        # this operand's operations ran unconditionally although python would skip them: lower properly
-        return self.boolop_cf(e, is_and)
+        # python would skip this operand's operations when the earlier operands decide: lower to control flow
+        self.restore_state(snap)
+        return self.boolop_cf(e.values[i:], vals, is_and)
       vals.append(t)
     if not vals:
       return self.lift(is_and)
@@ -1128,8 +1128,50 @@ class Compiler:
       return SE(vals[0])
     return SE(BoolOp("and" if is_and else "or", vals))
 
-  def boolop_cf(self, e, is_and):
-    raise TranslationError("and/or whose later operand performs a shared operation after a dynamic operand (%s)" % (self.cur_src,))
+  def snapshot_state(self):
+    return (len(self.prog.nodes), list(self.dangling), self.ntemp, set(self.prog.locals), [(h[1], len(h[1])) for h in self.handlers if isinstance(h[1], list)],
+            [(h[1], {k: len(v) for k, v in h[1].items()}) for h in self.handlers if isinstance(h[1], dict)])
+
+  def restore_state(self, snap):
+    n0, dangling, ntemp, locs, hl, hd = snap
+    del self.prog.nodes[n0:]
+    for (n, attr) in dangling:
+      self._patch(n, attr, None)
+    self.dangling = list(dangling)
+    self.ntemp = ntemp
+    for k in list(self.prog.locals):
+      if k not in locs:
+        del self.prog.locals[k]
+    for lst, ln in hl:
+      del lst[ln:]
+    for d, lens in hd:
+      for k in list(d):
+        if k not in lens:
+          del d[k]
+        else:
+          del d[k][lens[k]:]
+
+  def boolop_cf(self, rest, vals, is_and):
+    r = self.var("bool")
+    first = vals[0] if len(vals) == 1 else BoolOp("and" if is_and else "or", vals)
+    self.assign(r, as_int(first))
+    ends = []
+    self.dyn += 1
+    for sub in rest:
+      br = self._emit(ir.Branch(cond=Cmp("ne", V(r), K(0)), t=None, f=None))
+      if is_and:
+        ends.append((br, "f"))
+        self.dangling = [(br, "t")]
+      else:
+        ends.append((br, "t"))
+        self.dangling = [(br, "f")]
+      v = self.expr(sub)
+      t = self.truthy(v)
+      self.assign(r, as_int(t))
+    self.dyn -= 1
+    self.dangling = self.dangling + ends
+    self.label()
+    return SE(Cmp("ne", V(r), K(0)))
 
   def e_Compare(self, e):
     if len(e.ops) != 1:
@@ -1293,8 +1335,7 @@ class Compiler:
     if cls == "dict":
       if name == "get":
         d = args[1] if len(args) > 1 else SK(NONE, None)
-        has = self.op(target, "contains", [args[0]])
-        raise TranslationError("dict.get is modelled only through the scenario's intrinsic")
+        return self.op(target, "get_default", [args[0], d])
       if name == "clear":
         return self.op(target, "clear", [], want=0)
     if cls == "sleep":
